@@ -15,7 +15,10 @@ def check_C11(tier, seed):
     rp.trusted.update(BASE_TRUST)
     G.validate_translator(rp, "default", seed, 300 if tier == "quick" else 1500)
     G.validate_translator(rp, "compact", seed, 300 if tier == "quick" else 1500)
-    G.run_lemire(rp, tier, seed)
+    lc = None
+    if tier != "thorough":
+        lc = {f: sorted(set(G.lemire_classes(f, tier, seed) + G.lemire_threshold_classes(f, 2))) for f in ("f64", "f32")}
+    G.run_lemire(rp, tier, seed, classes=lc)
     bc = {f: G.bell_classes(f, tier, seed) + G.bell_threshold_classes(f, 1 if tier == "thorough" else 2)
           + G.bell_subnormal_truncated_classes(f, 1 if tier == "thorough" else 2) for f in ("f64", "f32")}
     G.run_bell(rp, tier, seed, classes=bc)
@@ -120,7 +123,7 @@ def _classes_subset(fmt, tier, seed, frac):
         return cl
     rng = random.Random(seed * 977 + len(cl))
     keep = [c for c in cl if c[1] == 0 or rng.random() < frac]
-    return keep
+    return sorted(set(keep + G.lemire_threshold_classes(fmt, 3)))
 
 
 def _correct_rounding(pid, fmt, tier, seed):
@@ -224,7 +227,7 @@ def check_C07(tier, seed):
                 emax = F["inf"] - 1 - F["bias"] + F["p1"] + 1
                 return lo1 <= approx <= hi1 or emax - 3 <= approx <= emax + 2
             edge = [c for c in cls[f] if near_edge(c)]
-            cls[f] = sorted(set(rng.sample(edge, min(len(edge), 500 if f == "f64" else 250)) +
+            cls[f] = sorted(set(rng.sample(edge, min(len(edge), 400 if f == "f64" else 200)) + G.lemire_threshold_classes(f, 2) +
                                 [c for c in cls[f] if c[1] == 0 and (c[0] < -300 or c[0] > 290 or f == "f32")]))
     G.run_lemire(rp, tier, seed, classes=cls)
     bc = {}
@@ -307,7 +310,8 @@ def check_C16(tier, seed):
     from . import kani as K, vecgen
     src, names = vecgen.generate(tier, seed)
     K.set_generated("vec", {"src/instances.rs": src})
-    hs = [h for h in names["C12"] if "large_add_from" in h or "shl_limbs" in h][:24] + [h for h in names["C13"] if "resize" in h][:12]
+    hs = [h for h in names["C12"] if "large_add_from" in h] + [h for h in names["C12"] if "shl_limbs" in h][:10] + \
+         [h for h in names["C13"] if "resize" in h][:12]
     G.run_kani(rp, "vec", "default", hs, "stale-storage", timeout=600, lanes=12, extra=("-Z", "stubbing"))
     # shared mutable state: none outside the x87 control-word module (syntactic scan of the MIR, reported as assumption)
     import re
@@ -351,7 +355,7 @@ def check_C04(tier, seed):
     for fmt in ("f64", "f32"):
         cl = G.lemire_classes(fmt, tier, seed, focus="boundary")
         if tier == "quick":
-            cl = [c for c in cl if c[1] == 0 or rng.random() < 0.15]
+            cl = sorted(set([c for c in cl if c[1] == 0 or rng.random() < 0.15] + G.lemire_threshold_classes(fmt, 2)))
         for (q, lz) in cl:
             jobs.append((J.job_lemire_cf, (mpc, fmt, q, lz, 20 if tier == "quick" else 60, seed, True)))
         jobs.append((J.job_lemire_early, (mpc, fmt, 30)))
@@ -419,7 +423,7 @@ def check_C08(tier, seed):
     else:
         # the heap back-end's raw-pointer code (shl_limbs trusts capacity()) and its growth paths, short lengths
         G.run_kani_vec(rp, "quick", seed, ["C13", "C12"], config="alloc",
-                       name_filter=r"(shl_limbs|push|extend|resize|try_from)_(0|1|2|3)(_|$)")
+                       name_filter=r"(shl_limbs|push|extend|resize|try_from)_(0|1|2|3)(_|$)|after_clone")
     G.run_fast_path(rp, tier, seed)
     G.run_tables(rp, configs=("default",))
     rp.bounds += ["digit loops with ARBITRARY bytes (all 256 values, leading/trailing zeros) at shapes up to 40 bytes: Kani's pointer, bounds and "
